@@ -454,10 +454,31 @@ func verifC23WaitCond(d time.Duration, f func() bool) bool {
 	}
 }
 
+// waitQuiet waits until f() holds; gives up only when nothing at all has happened (no event
+// emitted) for the whole deadline, so a slow machine extends the wait instead of ending it
+func (e *verifC23Env) waitQuiet(f func() bool) bool {
+	last, t0 := e.tr.Len(), time.Now()
+	for i := 0; ; i++ {
+		if f() {
+			return true
+		}
+		if n := e.tr.Len(); n != last {
+			last, t0 = n, time.Now()
+		} else if time.Since(t0) > e.deadline {
+			return false
+		}
+		if i < 200 {
+			runtime.Gosched()
+		} else {
+			time.Sleep(500 * time.Microsecond)
+		}
+	}
+}
+
 // quiesce: everything the environment can do has been done (all stubs released, all gates
-// open).  Waits for every request; a request that still has not returned after the deadline,
-// while nothing of the environment is left to act, waits forever.  Returns false when the
-// accounting cannot be judged (loader goroutines still alive: machinery problem).
+// open).  Waits for every request; a request that still has not returned when nothing has
+// happened for the whole deadline, while nothing of the environment is left to act, waits
+// forever.  Returns false when the accounting cannot be judged.
 func (e *verifC23Env) quiesce() bool {
 	e.mu.Lock()
 	all := append([]*verifC23Req(nil), e.all...)
@@ -476,11 +497,11 @@ func (e *verifC23Env) quiesce() bool {
 		}
 		return p
 	}
-	ok := verifC23WaitCond(e.deadline, func() bool { return len(pending()) == 0 })
+	ok := e.waitQuiet(func() bool { return len(pending()) == 0 })
 	p := pending()
 	if !ok {
 		stacks := verifC23AllStacks()
-		e.res.Note("run with pending requests %v after %v; goroutines:\n%s", p, e.deadline, verifC23CacheFrames(stacks))
+		e.res.Note("run with pending requests %v, nothing happened for %v; goroutines:\n%s", p, e.deadline, verifC23CacheFrames(stacks))
 	}
 	if p == nil {
 		p = []int{}
